@@ -454,6 +454,11 @@ example : canEnforce (run (init 5) [([1], .install 1 demoRule I128_MAX 10),
       ([1], .enforce 1 demoRule (.transfer (I128_MAX - 1)) [0])]) (.transfer 5) [0] demoRule 1
     = .error .overflowPanic := by decide
 
+-- why the property quantifies over ledgers >= 1: at ledger 0 the saturating cutoff is 0, an
+-- entry of ledger 0 is evicted at once, and the same allowance is granted again
+example : (reach 0 [([1], .install 1 demoRule 10 5), ([1], .enforce 1 demoRule (.transfer 10) [0]),
+    ([1], .enforce 1 demoRule (.transfer 10) [0])]).2 1 0 = [⟨10, 0, 10, 5⟩, ⟨10, 0, 10, 5⟩] := by decide
+
 end Spend
 
 /-! ### non-vacuity for the threshold policies -/
